@@ -513,6 +513,13 @@ def naming_rows(ctx):
     for mname, m in S.modules.items():
         for c in S.top_level(m):
             tops.setdefault((c["name"], m["api"]), mname)
+    # names a future definition may carry: the suffix is removed at the END only, an inner Request/Response word stays
+    for cname, want in (("AlterRequestQuotasRequest", "alter_request_quotas"), ("DescribeResponseCodesResponse", "describe_response_codes"),
+                        ("RequestHeader", "request_header"), ("ResponseHeader", "response_header"), ("ForwardRequestRequest", "forward_request")):
+        got = call(basic, cname)
+        rows.append({"ok": got == want, "construct": "codegen.generate_schema:basic_name", "stmt": f"basic_name({cname!r})",
+                     "message": f"basic_name({cname!r}) gives {got!r}; the package of that definition is {want!r} (only the trailing _request / "
+                                f"_response is dropped)", "file": "codegen/generate_schema.py", "line": basic.node.lineno})
     for (cname, api), mname in sorted(tops.items()):
         got = call(basic, cname)
         rows.append({"ok": got == api, "construct": "codegen.generate_schema:basic_name", "stmt": f"basic_name({cname!r})",
